@@ -27,8 +27,8 @@ ASSUMPTIONS = {
     "C12": ["resident blocks are observed through the public cache_repr(); backing store through the public read_byte of the lower Memory"],
 }
 REQUIRED = {
-    "C03": ["reads_compared", "crossing_rejected", "readback_after_reject", "evictions", "bfs_transitions", "prog_runs_compared", "uncounted_reads", "preloaded_histories"],
-    "C09": ["counter_checks", "hits", "misses", "write_miss_no_allocate", "uncounted_reads", "penalty_checks_nonzero", "prog_stats_compared", "bfs_transitions", "warm_preloads_on_resident_block"],
+    "C03": ["reads_compared", "crossing_rejected", "readback_after_reject", "evictions", "bfs_transitions", "prog_runs_compared", "uncounted_reads", "preloaded_histories", "asm_programs_compared"],
+    "C09": ["counter_checks", "hits", "misses", "write_miss_no_allocate", "uncounted_reads", "penalty_checks_nonzero", "prog_stats_compared", "bfs_transitions", "warm_preloads_on_resident_block", "load_stats_checked"],
     "C12": ["invariant_checks", "wt_resident_written", "wb_dirty_evictions", "bfs_transitions", "crossing_rejected"],
 }
 
@@ -43,6 +43,7 @@ def plan(prop, tier, seed):
         sh += [{"kind": "bfs", "depth": 4 if q else 6, "cfgi": i, "shard": i, "acct": True} for i in range(10)]
     if prop in ("C03", "C09"):
         sh += [{"kind": "prog", "n": 90 if q else 1500, "shard": i} for i in range(6 if q else 16)]
+        sh += [{"kind": "asmprog", "n": 40 if q else 700, "shard": i} for i in range(3 if q else 8)]
     return sh
 
 
@@ -786,6 +787,75 @@ def run_prog(case, res, prop):
     res.count("misses", golden[1] - golden[0])
 
 
+def gen_asmprog_case(rng):
+    """assembler-loaded program with a data segment (the parser preloads below the cache): every variable is read
+    by name, strings are printed, some elements are stored to and read back"""
+    from ..gen import asm_rv as A
+
+    data = A.gen_data(rng, 6)
+    while len(data) < 2:
+        data = A.gen_data(rng, 6)
+    vars_, img, _ = A.layout(data)
+    stmts = []
+    regs = list(range(5, 16)) + list(range(18, 31))
+    for d in data:
+        name = d["name"]
+        addr, w, n = vars_[name]
+        if d["type"] == "string":
+            stmts += [{"k": "la", "rd": 10, "var": name, "idx": None}, {"k": "li", "rd": 17, "c": 4}, {"k": "ecall"}]
+        for _ in range(rng.randint(1, 3)):
+            idx = rng.randrange(n)
+            m = {1: ["lb", "lbu"], 2: ["lh", "lhu"], 4: ["lw"]}[w]
+            stmts.append({"k": "ldv", "m": rng.choice(m), "rd": rng.choice(regs), "var": name, "idx": idx})
+            if rng.random() < 0.4:
+                stmts.append({"k": "stv", "m": {1: "sb", 2: "sh", 4: "sw"}[w], "rs1": rng.choice(regs), "rs2": rng.choice(regs), "var": name, "idx": rng.randrange(n)})
+    rng.shuffle(stmts) if rng.random() < 0.3 else None
+    stmts += [{"k": "li", "rd": 17, "c": 93}, {"k": "mv", "rd": 10, "rs": rng.choice(regs)}, {"k": "ecall"}]
+    return {"kind": "asmprog", "data": data, "stmts": stmts, "render": rng.getrandbits(30) + 1, "data_first": rng.random() < 0.5, "dcache": rand_cfg(rng, small=rng.random() < 0.6)}
+
+
+def run_asmprog(case, res, prop):
+    from ..gen import asm_rv as A
+
+    text = A.Renderer(case["render"]).program({"data": case["data"], "stmts": case["stmts"], "labels": {}}, data_first=case["data_first"])
+    outs = {}
+    for mode in ("single", "five"):
+        for dc in (None, case["dcache"]):
+            sim = make_riscv(mode, dcache=dc)
+            try:
+                sim.load_program(text)
+            except Exception as e:
+                res.violation("C04", "load-failed", "generated data program failed to load: %r" % (e,), case)
+                return
+            if dc is not None:
+                # parser preloads leave the counters untouched
+                st = sim.get_data_cache_stats()
+                res.count("load_stats_checked")
+                if (int(st["hits"]), int(st["accesses"])) != (0, 0) or sim.state.performance_metrics.cycles != 0:
+                    res.violation("C09", "preload-counted", "after load_program the data cache reports %r and the cycle counter is %d" % ({k_: st[k_] for k_ in ("hits", "accesses", "last_hit")}, sim.state.performance_metrics.cycles), case)
+                    if prop == "C09":
+                        return
+            k = 0
+            try:
+                while not sim.is_done() and k < 600:
+                    sim.step()
+                    k += 1
+            except Exception as e:
+                outs[(mode, dc is not None)] = ("EXC", repr(e)[:120])
+                continue
+            outs[(mode, dc is not None)] = (real_regs(sim), sim.state.output, sim.state.exit_code, pipe.mem_image(sim), bool(sim.is_done()))
+    res.count("asm_programs_compared")
+    names = ["registers", "output", "exit code", "memory", "done"]
+    for mode in ("single", "five"):
+        a, b = outs[(mode, False)], outs[(mode, True)]
+        if a != b:
+            what = [names[i] for i in range(5) if a[i] != b[i]] if a[0] != "EXC" and b[0] != "EXC" else [a[:2], b[:2]]
+            res.violation("C03", "prog-result", "%s mode, assembler-loaded program with data segment: data cache on/off differ in %s" % (mode, what), case)
+            return
+    if prop in ("C03", "C09"):
+        res.nontrivial(h64(case))
+
+
 # ------------------------------------------------------------------------------------------- driver
 
 
@@ -816,6 +886,8 @@ def run_case(prop, case, res):
         run_prog(case, res, prop)
     elif case["kind"] == "bfs":
         run_bfs(case, res, prop)
+    elif case["kind"] == "asmprog":
+        run_asmprog(case, res, prop)
 
 
 def run_shard(spec, res):
@@ -833,6 +905,8 @@ def run_shard(spec, res):
         if spec["kind"] == "hist":
             acct = prop in ("C09", "C10") or rng.random() < 0.35
             case = gen_history(rng, spec["ops"], acct)
+        elif spec["kind"] == "asmprog":
+            case = gen_asmprog_case(rng)
         else:
             prog, regs = word_ok_program(rng)
             case = {"kind": "prog", "prog": prog, "regs": regs, "mem": G.init_mem(rng), "dcache": rand_cfg(rng, small=rng.random() < 0.7), "max_instr": 250}
